@@ -87,6 +87,12 @@ static unsigned count_past(const struct lp_ctx *lp, unsigned upto)
  * termination message then only needs to be delivered (in-process MPI: at most net_delay_max scheduler steps, then the
  * next poll).  40 further qualifying rounds (plus, on several ranks, 4 x net_delay_max + 200000 steps) without returning
  * is reported. */
+/* an oracle that serves two properties: labelled `alt` when that is the property being checked, `dflt` otherwise */
+static const char *lab(const char *dflt, const char *alt)
+{
+	return !strcmp(RT.prop, alt) ? alt : dflt;
+}
+
 static int lv_on;
 static double lv_tau_all, lv_max_proc_t, lv_t_hi;
 static unsigned lv_rounds;
@@ -212,7 +218,7 @@ static void ev_cb(const struct rsv_rec *r)
 			n_rb_digest++;
 			uint64_t got = lp_digest(lp);
 			if(got != expect)
-				rt_fail("C05",
+				rt_fail(s->fossil_seen ? lab("C05", "C13") : "C05",
 				    "state of LP %llu after rollback (kept %llu history entries = %u events, restored checkpoint at %llu) differs from "
 				    "the state right after its last valid event (digest %016llx, expected %016llx)",
 				    (unsigned long long)id, (unsigned long long)r->a, k, (unsigned long long)r->b, (unsigned long long)got,
@@ -380,7 +386,7 @@ static void walk_trace(void)
 	int det = RT.cfg.mode == RSV_MODE_DET;
 	if(rsv_trace_overflow()) {
 		res->cls[K_BUDGET]++;
-		if(!strcmp(RT.prop, "C03") || !strcmp(RT.prop, "C04") || !strcmp(RT.prop, "C06") || !strcmp(RT.prop, "C20")) {
+		if(!strcmp(RT.prop, "C03") || !strcmp(RT.prop, "C04") || !strcmp(RT.prop, "C06") || !strcmp(RT.prop, "C20") || !strcmp(RT.prop, "C13")) {
 			res->verdict = RSV_INCONCLUSIVE;
 			snprintf(res->msg, sizeof res->msg, "trace buffer overflow (%d records): history oracles not evaluated", TRACE_CAP);
 		}
@@ -559,7 +565,7 @@ static void walk_trace(void)
 				if(r->tag == 0) {
 					uint64_t lp = r->a;
 					if(!(r->m_t < r->t))
-						rt_fail("C03", "LP %llu: history entry with timestamp %a released by fossil collection at GVT %a (not below it)",
+						rt_fail(lab("C03", "C13"), "LP %llu: history entry with timestamp %a released by fossil collection at GVT %a (not below it)",
 						    (unsigned long long)lp, r->m_t, r->t);
 					if(r->t != gvt_last[th])
 						rt_fail("C04", "thread %d reclaims history at GVT %a but the last GVT it was told is %a", r->rid, r->t, gvt_last[th]);
@@ -1249,6 +1255,8 @@ void rt_oracles_end(const char *stats_path)
 		res->nontrivial = res->cls[K_ANTI_LOCAL] > 0;
 	else if(!strcmp(p, "C05"))
 		res->nontrivial = res->cls[K_RB_BETWEEN] > 0 && res->cls[K_RB_DIGESTS] > 0;
+	else if(!strcmp(p, "C13"))
+		res->nontrivial = res->cls[K_FOSSIL_THEN_RB] > 0 && res->cls[K_RB_DIGESTS] > 0;
 	else if(!strcmp(p, "C07"))
 		res->nontrivial = res->cls[K_TRUE_AT_INIT] || res->cls[K_TRUE_AT_T0] || res->cls[K_SPEC_TRUE_ROLLED_BACK];
 	else if(!strcmp(p, "C08"))
